@@ -67,9 +67,9 @@ def check(run, driver):
                         # a nearly singular sample correlation (6 columns, a dozen rows) amplifies rounding by its condition number:
                         # "unchanged up to rounding" cannot be judged at 1e-9 there
                         run.skip("gaussian: ill-conditioned sample correlation (cond > 1e4)"); continue
-                    if info == "geometric_knn" and datakind == "continuous":
-                        # samples anywhere relative to the origin: exact power-of-two offsets of 2^6 .. 2^20 spacings per column
-                        base = base + 2.0 ** rng.integers(6, 21, size=base.shape[1]) * rng.choice([-1.0, 1.0], size=base.shape[1])
+                    if info in ("geometric_knn", "knn") and datakind == "continuous" and (info == "geometric_knn" or rep % 2 == 0):
+                        # samples anywhere relative to the origin: exact power-of-two offsets of 2^6 .. 2^26 spacings per column
+                        base = base + 2.0 ** rng.integers(6, 27, size=base.shape[1]) * rng.choice([-1.0, 1.0], size=base.shape[1])
                     X, Y, Z = base[:, :kx], base[:, kx:kx + ky], (base[:, kx + ky:] if cond else None)
                     # arguments of different dtypes (single next to double precision; integer counts next to continuous measurements):
                     # the sample is the same whichever argument position a block is passed in
@@ -137,11 +137,11 @@ def check(run, driver):
     for it in range(30 if thorough else 10):
         N = int(rng.integers(12, 20)); kx, ky, kz = 1, int(rng.integers(1, 3)), 2; kk = int(rng.integers(1, 3))
         W = rng.standard_normal((N, kx + ky + kz)) @ (rng.standard_normal((kx + ky + kz, kx + ky + kz)) * 0.4 + np.eye(kx + ky + kz))
-        W = W + 2.0 ** (8 + it % 10) * rng.choice([-1.0, 1.0], size=W.shape[1]) * rng.uniform(1.0, 1.9, size=W.shape[1]).round(3)
+        W = W + 2.0 ** (8 + (it % 10) * 2) * rng.choice([-1.0, 1.0], size=W.shape[1]) * rng.uniform(1.0, 1.9, size=W.shape[1]).round(3)
         X, Y, Z = W[:, :kx], W[:, kx:kx + ky], W[:, kx + ky:]
         f = lambda a, b, c: float(C.geometric_knn_conditional_mutual_information(a, b, c, metric="euclidean", k=kk))
         v = f(X, Y, Z)
-        case = {"estimator": "geometric_knn", "path": "Z given", "data": f"continuous, offset 2^{8 + it % 10} spacings", "N": N, "kx": kx, "ky": ky, "kz": kz, "k": kk, "X": X, "Y": Y, "Z": Z}
+        case = {"estimator": "geometric_knn", "path": "Z given", "data": f"continuous, offset 2^{8 + (it % 10) * 2} spacings", "N": N, "kx": kx, "ky": ky, "kz": kz, "k": kk, "X": X, "Y": Y, "Z": Z}
         run.case("geometric-offset", [N, ky, kk, it % 10, float(W[0, 0])], math.isfinite(v), sample={k_: case[k_] for k_ in ("estimator", "data", "N", "kx", "ky", "kz", "k")} | {"value": v})
         pm = rng.permutation(N)
         for tr, w_ in (("swap_xy", f(Y, X, Z)), ("z_col_perm", f(X, Y, Z[:, ::-1])), ("row_perm", f(X[pm], Y[pm], Z[pm]))):
